@@ -11,6 +11,7 @@ import (
 	"go/token"
 	"go/types"
 	"math/big"
+	"os"
 	"strings"
 
 	"golang.org/x/tools/go/ssa"
@@ -273,6 +274,41 @@ func (ae *AEval) Eval(t *Term, cell Cell, depth int) AVal {
 				rs := ae.CallResults(f, args, depth+1)
 				if len(rs) == 1 {
 					return rs[0]
+				}
+			}
+		}
+		// slices.Contains(literal list of integer constants, x): decided when x's cell lies on one element or
+		// misses them all
+		if t.Sym == "slices.Contains" && len(t.Args) == 2 && ae.TB != nil {
+			if els := varargsElems(ae.TB, t.Args[0]); len(els) > 0 {
+				x := ae.Eval(t.Args[1], cell, depth)
+				if os.Getenv("OTPSA_DEBUG") != "" {
+					fmt.Fprintf(os.Stderr, "contains: els=%v x=%+v\n", els, x)
+				}
+				if x.Kind == "int" && x.I.Lo != nil && x.I.Hi != nil {
+					hitAll, missAll, okEls := x.I.Lo.Cmp(x.I.Hi) == 0, true, true
+					same := false
+					for _, e := range els {
+						ev := ae.Eval(e, cell, depth)
+						if ev.Kind != "int" || ev.I.Lo == nil || ev.I.Hi == nil || ev.I.Lo.Cmp(ev.I.Hi) != 0 {
+							okEls = false
+							break
+						}
+						if ev.I.Lo.Cmp(x.I.Lo) >= 0 && ev.I.Lo.Cmp(x.I.Hi) <= 0 {
+							missAll = false
+							if hitAll && ev.I.Lo.Cmp(x.I.Lo) == 0 {
+								same = true
+							}
+						}
+					}
+					if okEls {
+						switch {
+						case missAll:
+							return aBool(false)
+						case same:
+							return aBool(true)
+						}
+					}
 				}
 			}
 		}
